@@ -217,3 +217,61 @@ def alter(bundle, alteration, sec_type=11):
     else:
         raise ValueError(kind)
     return out
+
+
+_PKI = {}
+
+
+def pki(node_id, curve_name='p256', which=0):
+    ''' (CA certificate, end-entity certificate naming ``node_id`` as bundle EID, end-entity private key); cached. '''
+    key = (node_id, curve_name, which)
+    if key in _PKI:
+        return _PKI[key]
+    import datetime
+    from cryptography import x509
+    from cryptography.hazmat.primitives import hashes
+    from cryptography.hazmat.primitives.asymmetric import ec
+    curve = {'p256': ec.SECP256R1(), 'p384': ec.SECP384R1()}[curve_name]
+    ca_key = ec.generate_private_key(curve)
+    ee_key = ec.generate_private_key(curve)
+    ca_name = x509.Name([x509.NameAttribute(x509.oid.NameOID.COMMON_NAME, 'verif CA %d' % which)])
+    nbefore, nafter = datetime.datetime(2020, 1, 1), datetime.datetime(2040, 1, 1)
+    ca = (x509.CertificateBuilder().subject_name(ca_name).issuer_name(ca_name).public_key(ca_key.public_key()).serial_number(10 + which)
+          .not_valid_before(nbefore).not_valid_after(nafter)
+          .add_extension(x509.BasicConstraints(ca=True, path_length=1), critical=True)
+          .add_extension(x509.KeyUsage(False, False, False, False, False, True, True, False, False), critical=False)
+          .add_extension(x509.SubjectKeyIdentifier.from_public_key(ca_key.public_key()), critical=False)
+          .add_extension(x509.AuthorityKeyIdentifier.from_issuer_public_key(ca_key.public_key()), critical=False)
+          .sign(ca_key, hashes.SHA256()))
+    text = node_id.encode('ascii')
+    other = x509.OtherName(x509.oid.ObjectIdentifier('1.3.6.1.5.5.7.8.11'), bytes([0x16, len(text)]) + text)
+    ee = (x509.CertificateBuilder().subject_name(x509.Name([x509.NameAttribute(x509.oid.NameOID.COMMON_NAME, 'end-entity')]))
+          .issuer_name(ca.issuer).public_key(ee_key.public_key()).serial_number(20 + which)
+          .not_valid_before(nbefore).not_valid_after(nafter)
+          .add_extension(x509.BasicConstraints(ca=False, path_length=None), critical=True)
+          .add_extension(x509.SubjectAlternativeName([other]), critical=False)
+          .add_extension(x509.KeyUsage(True, False, False, False, False, False, False, False, False), critical=False)
+          .add_extension(x509.ExtendedKeyUsage([x509.oid.ObjectIdentifier('1.3.6.1.5.5.7.3.35')]), critical=False)
+          .add_extension(x509.SubjectKeyIdentifier.from_public_key(ee_key.public_key()), critical=False)
+          .add_extension(x509.AuthorityKeyIdentifier.from_issuer_public_key(ca_key.public_key()), critical=False)
+          .sign(ca_key, hashes.SHA256()))
+    _PKI[key] = (ca, ee, ee_key)
+    return _PKI[key]
+
+
+def give_signing_identity(node, node_id, curve_name='p256'):
+    from pycose.keys import keyops
+    ca, ee, ee_key = pki(node_id, curve_name)
+    ctx = node.bpsec
+    ctx._ca_certs = [ca]
+    ctx._cert_chain = [ee]
+    key = ctx.extract_cose_key(ee_key)
+    key.kid = b'k-sign'
+    key.key_ops = [keyops.SignOp]
+    ctx.asym_key_store[key.kid] = key
+    return key
+
+
+def trust(node, node_id, curve_name='p256', which=0):
+    ''' The receiver trusts the CA number ``which`` (0 = the one that issued the source certificate). '''
+    node.bpsec._ca_certs = [pki(node_id, curve_name, which)[0]]
